@@ -25,7 +25,36 @@ def run_scenario(sc: dict[str, Any]) -> dict[str, Any]:
     try:
         reg = sim.registry()
 
+        def mk_sync_daemon(hid: str, c: dict[str, Any]):
+            # a synchronous daemon runs in a thread of the executor (a virtual thread here): it cannot be cancelled, only asked
+            from sim import vthreads
+
+            def body(stopped, **_):
+                sim.rec('d.enter', h=hid)
+                how = 'returned'
+                try:
+                    if c['reaction'] == 'selfexit':
+                        stopped.wait(c['after'])
+                        if stopped:
+                            sim.rec('d.flagseen', h=hid, reasons=str(stopped.reason))
+                        return
+                    stopped.wait()
+                    sim.rec('d.flagseen', h=hid, reasons=str(stopped.reason))
+                    if c['reaction'] == 'obey':
+                        if c.get('after'): vthreads.sleep(c['after'])
+                        return
+                    vthreads.sleep(5 if c['reaction'] == 'cancel' else 25)      # sits in a blocking call: nothing reaches it
+                except vthreads.Killed:
+                    how = 'killed'; raise
+                finally:
+                    sim.rec('d.exit', h=hid, how=how)
+            body.__name__ = body.__qualname__ = hid
+            return body
+
         def mk_daemon(hid: str, c: dict[str, Any]):
+            if c.get('sync'):
+                return mk_sync_daemon(hid, c)
+
             async def body(stopped, **_):
                 sim.rec('d.enter', h=hid)
                 how = 'returned'
@@ -137,8 +166,9 @@ def run_scenario(sc: dict[str, Any]) -> dict[str, Any]:
             elif ev == 'op.stop': out.append({'ev': 'opexit', 't': t})
             elif ev == 'quiet': out.append({'ev': 'quiet', 't': t})
             elif ev == 'stall': out.append({'ev': 'stall', 't': t})
-        none = {'kind': 'none', 'backoff': 0, 'timeout': 0}
-        conf = {h: ({'kind': sc['handlers'][h]['kind'], 'backoff': sc['handlers'][h].get('backoff', 0), 'timeout': sc['handlers'][h].get('timeout', 0)}
+        none = {'kind': 'none', 'backoff': 0, 'timeout': 0, 'sync': False}
+        conf = {h: ({'kind': sc['handlers'][h]['kind'], 'backoff': sc['handlers'][h].get('backoff', 0), 'timeout': sc['handlers'][h].get('timeout', 0),
+                     'sync': bool(sc['handlers'][h].get('sync'))}
                     if h in sc['handlers'] else none) for h in HS}
         return {'id': sc['id'], 'conf': conf, 'events': out, 'stall': stall, 'scenario': sc}
     finally:
@@ -158,6 +188,9 @@ def gen_scenarios(seed: int, n: int) -> list[dict[str, Any]]:
             hs[hid] = {'kind': 'daemon', 'reaction': reaction, 'after': rnd.choice([0, 1, 2, 6]) if reaction in ('obey', 'selfexit') else 0,
                        'backoff': rnd.choice([0, 2, 3]), 'timeout': rnd.choice([0, 2, 4])}
             if reaction == 'selfexit': hs[hid]['after'] = rnd.choice([1, 3, 8])
+        rs = random.Random(f'daemons-sync-{seed}-{i}')       # (a stream of its own: the histories of earlier rounds stay as they were)
+        for hid in hs:
+            if rs.random() < 0.3: hs[hid]['sync'] = True
         if rnd.random() < 0.4:
             hs['t1'] = {'kind': 'timer', 'interval': rnd.choice([0, 2, 3]), 'idle': rnd.choice([0, 0, 2])}
             if not hs['t1']['interval'] and not hs['t1']['idle']: hs['t1']['interval'] = 2
